@@ -1717,6 +1717,10 @@ func c19StartBeat() {
 // ---------------------------------------------------------------- driver
 
 func c19Child(ctx *runCtx, spec string) {
+	if strings.HasPrefix(spec, "destroy ") {
+		c19DestroyChild(ctx, spec)
+		return
+	}
 	var lo, hi int
 	fmt.Sscanf(spec, "%d-%d", &lo, &hi)
 	for idx := lo; idx < hi; idx++ {
@@ -1794,6 +1798,14 @@ func c19Run(ctx *runCtx) int {
 			hi = n
 		}
 		batches = append(batches, batch{Spec: fmt.Sprintf("%d-%d", lo, hi), Timeout: 12 * time.Minute})
+	}
+	// Destroy through members that have never handled the DMap (c19_destroy.go)
+	dr := 18
+	if ctx.tier == "thorough" {
+		dr = 150
+	}
+	for i, cfg := range []string{"N=3 R=1 P=7", "N=3 R=2 P=13", "N=2 R=2 P=7"} {
+		batches = append(batches, batch{Spec: fmt.Sprintf("destroy %s rounds=%d seed=%d", cfg, dr, ctx.seed*100+int64(i)), Timeout: 12 * time.Minute})
 	}
 	runBatches(ctx, batches, 8, func(b batch, res batchResult, tail string) {
 		// attribute the death to the case logged last
